@@ -144,6 +144,115 @@ def check_label(label, files, primary, code, spellings, msg):
     return None
 
 
+SECTION = re.compile(r"^\s*┌─ (.*):(\d+):(\d+)\s*$")
+SRC_LINE = re.compile(r"^\s*(\d+) │ (.*)$")
+MARK_LINE = re.compile(r"^\s*│ ")
+MARK_RUN = re.compile(r"\x1b\[3[14]m([\^]+|-+)\x1b\[0m")
+
+
+def cli_marked(err_raw):
+    """What the CLI underlines: [{code, sections: [(file, line, col)], marked: [(file, line, underlined text)]}] from
+    the coloured codespan output (marker runs are the coloured '^^^' / '---' directly below an excerpt line)."""
+    printed = []
+    cur = None
+    sec_file = None
+    last_src = None
+    for raw in err_raw.splitlines():
+        line = core.ANSI.sub("", raw)
+        m = core.DIAG_HEAD.match(line)
+        if m:
+            cur = {"code": m.group(1), "sections": [], "marked": [], "odd": False}
+            printed.append(cur)
+            sec_file = last_src = None
+            continue
+        if cur is None:
+            continue
+        m = SECTION.match(line)
+        if m:
+            sec_file = os.path.basename(m.group(1))
+            cur["sections"].append((sec_file, int(m.group(2)), int(m.group(3))))
+            last_src = None
+            continue
+        m = SRC_LINE.match(line)
+        if m and sec_file is not None:
+            last_src = (int(m.group(1)), m.group(2))
+            continue
+        if MARK_LINE.match(line) and last_src is not None:
+            # column of every coloured marker run, measured in the uncoloured line
+            pos = 0
+            plain = ""
+            k = 0
+            runs = []
+            for mm in re.finditer(r"\x1b\[[0-9;]*m", raw):
+                plain += raw[k:mm.start()]
+                k = mm.end()
+            plain += raw[k:]
+            start_of_text = plain.index("│ ") + 2
+            # walk again, this time remembering where each marker run lands
+            k = 0
+            out_len = 0
+            spans = []
+            for mm in re.finditer(r"\x1b\[[0-9;]*m", raw):
+                seg = raw[k:mm.start()]
+                if seg and set(seg) <= {"^"} or seg and set(seg) <= {"-"}:
+                    spans.append((out_len - start_of_text, len(seg)))
+                out_len += len(seg)
+                k = mm.end()
+            for col, n in spans:
+                if col < 0:
+                    cur["odd"] = True
+                    continue
+                cur["marked"].append((sec_file, last_src[0], last_src[1][col:col + n]))
+            if spans:
+                last_src = None      # only the marker line directly under the excerpt line
+    return printed
+
+
+def cli_sections(err_raw, diags, files, code, stats=None):
+    """codespan draws one section ('┌─ file:line:col' + excerpt) per file that a diagnostic has labels in and underlines
+    every label.  For every printed diagnostic of the planted code whose labels are all on one line each: the multiset
+    of underlined texts equals the multiset of label texts of some in-process diagnostic of that code (which of two
+    equally good partner declarations a rule names may differ from run to run; what is underlined may not)."""
+    texts = dict(files)
+    cands = []
+    for d in diags:
+        if d["code"] != code:
+            continue
+        sl = []
+        for lab in [d["primary"]] + list(d["secondary"]):
+            if lab["file"] not in texts:
+                sl = None
+                break
+            piece = texts[lab["file"]].encode("utf-8")[lab["start"]:lab["end"]].decode("utf-8", "replace")
+            if "\n" in piece or not piece or not piece.isascii():
+                sl = None
+                break
+            sl.append(piece.lower())
+        if sl is None:
+            return None
+        cands.append(sorted(sl))
+    if not cands:
+        return None
+    for p in cli_marked(err_raw):
+        if p["code"] != code or not p["sections"] or p["odd"]:
+            continue
+        got = sorted(t.lower() for _f, _l, t in p["marked"])
+        # two labels with the same span are drawn once
+        if not any(got == c or sorted(set(got)) == sorted(set(c)) for c in cands):
+            return ("cli-underlines", "cli:underlined:%s" % code,
+                    {"underlined": p["marked"][:6], "label_texts_in_process": cands[:4], "sections": p["sections"]})
+        if stats is not None:
+            stats["cli-underlined-diags"] = stats.get("cli-underlined-diags", 0) + 1
+            stats["cli-underlined-labels"] = stats.get("cli-underlined-labels", 0) + len(p["marked"])
+            if len({f_ for f_, _l, _t in p["marked"]}) > 1:
+                stats["cli-underlined-multifile"] = stats.get("cli-underlined-multifile", 0) + 1
+        for f_, l_, t_ in p["marked"]:
+            real = texts.get(f_, "").split("\n")
+            if l_ - 1 >= len(real) or t_ not in real[l_ - 1].replace("\t", "    ").replace("\r", ""):
+                return ("cli-underlines", "cli:excerpt:%s" % code, {"file": f_, "line": l_, "underlined": t_})
+    return None
+
+
 def add_oscat(text, rng, non_ascii):
     body = rng.choice(["any text\nsecond line", "x", "", "a (* b *) c"]) if not non_ascii else \
         rng.choice(["ébc", "日本語\nzwei", "grüße €", "ñ"])
@@ -233,6 +342,11 @@ def shard(shard_i, nshards, payload):
                 k = rng.randrange(len(text) + 1)
                 text = text[:k] + rng.choice(["?", "@", "~", "`", "é?"]) + text[k:]
                 kind += "+lexerr"
+            if i % 13 == 3:
+                # text handed over from memory (an editor buffer) may start with a byte order mark or another
+                # invisible character: it is not a token, and everything after it keeps its own position
+                text = rng.choice(["\ufeff", "\ufeff\ufeff", "\u200b", "\u00a0", "\ufeff\r\n"]) + text
+                kind += "+bom"
             ot = probe.run({"op": "tokenize", "text": text, "file": "c05.st"})
             res.evaluations += 1
             res.count("source:" + kind)
@@ -268,6 +382,19 @@ def shard(shard_i, nshards, payload):
             comp = vgen.render_unit(vgen.VGen(rng, prefix="C", avoid=payload["avoid"]).unit(with_config=False))
             faults = [f for f in vgen.plant_all(decls) if not f[1].endswith("rhs-enum-target")]
             rng.shuffle(faults)
+            # a same-named twin of a declaration: a diagnostic with two labels (in two files when the unit is split)
+            named = [d for d in decls if d["k"] in ("enum", "struct", "subrange", "array", "fb", "program", "function")]
+            for d in named[:2]:
+                if d["k"] in ("fb", "program"):
+                    kw = "FUNCTION_BLOCK" if d["k"] == "fb" else "PROGRAM"
+                    twin = "%s %s VAR zz : INT; END_VAR zz := 1; END_%s" % (kw, d["name"], kw)
+                elif d["k"] == "function":
+                    twin = "FUNCTION %s : INT VAR_INPUT zz : INT; END_VAR %s := zz; END_FUNCTION" % (d["name"], d["name"])
+                else:
+                    twin = "TYPE %s : (dupa, dupb); END_TYPE" % d["name"]
+                tw = {"k": "raw", "text": twin}
+                faults.insert(0, ("DUP", "twin:%s" % d["k"], ([tw] + decls) if rng.random() < 0.5 else (decls + [tw]),
+                                  [d["name"]]))
             seen = set()
             for code, site, mutant, spellings in faults:
                 if (code, site.split(":")[0]) in seen or len(seen) >= payload["faults_per_unit"]:
@@ -277,6 +404,15 @@ def shard(shard_i, nshards, payload):
                 if rng.random() < 0.3:
                     text = "(* é ü *)\n" + text
                 files = [("comp.st", comp), ("unit.st", text)]
+                if rng.random() < 0.4 and len(mutant) > 1:
+                    # the unit spread over several files: labels of one diagnostic may then lie in different files
+                    k = rng.randint(2, 3)
+                    buckets = [[] for _ in range(k)]
+                    for dd in mutant:
+                        buckets[rng.randrange(k)].append(dd)
+                    files = [("comp.st", comp)] + [("unit%d.st" % j, ("(* é ü *)\n" * (j % 2)) + vgen.render_unit(b))
+                                                    for j, b in enumerate(buckets) if b]
+                    res.count("diag-unit-split")
                 if rng.random() < 0.5:
                     files.reverse()
                 obs = probe.run({"op": "analyze", "files": [[n, t] for n, t in files]})
@@ -285,6 +421,11 @@ def shard(shard_i, nshards, payload):
                 case = {"files": files, "planted": code, "site": site}
                 if obs.get("watchdog") or "died" in obs or "panic" in obs:
                     continue
+                if code == "DUP":
+                    got = [d["code"] for d in obs.get("diags", []) if d["code"] in ("P0019", "P0020")]
+                    if not got:
+                        continue
+                    code = got[0]
                 good = True
                 for d in obs.get("diags", []):
                     if d["code"] == "P9999":
@@ -298,10 +439,10 @@ def shard(shard_i, nshards, payload):
                             break
                 if good:
                     res.distinct.add(core.key_of("diag", code, site))
-                if good and i % 4 == 1:
+                if good and i % 4 == 1 and len(files) == 2:
                     lsp_positions(res, probe, tmp, text, code, case)
                 # (5) the CLI's line:col for the planted code
-                if good and i % 4 == 0 and core.PLC_BIN:
+                if good and i % 2 == 0 and core.PLC_BIN:
                     d_ = os.path.join(tmp, "u%d" % i)
                     os.makedirs(d_, exist_ok=True)
                     for n, t in files:
@@ -310,6 +451,9 @@ def shard(shard_i, nshards, payload):
                     res.evaluations += 1
                     res.count("cli-position")
                     cli = [(c[0], os.path.basename(c[2] or ""), c[3], c[4]) for c in core.parse_cli_diags(r["err"])]
+                    v = cli_sections(r["err_raw"], obs.get("diags", []), files, code, res.counters)
+                    if v:
+                        res.violation(v[0], v[1], v[2], case)
                     for dg in obs.get("diags", []):
                         if dg["code"] != code:
                             continue
@@ -369,6 +513,32 @@ def replay(case):
                 v = check_ids(c["text"], "c05.st", op, ot["tokens"])
         probe.close()
         return v is None, str(v)[:400]
-    obs = probe.run({"op": "analyze", "files": c["files"]})
+    files = [tuple(f) for f in c["files"]]
+    obs = probe.run({"op": "analyze", "files": [list(f) for f in files]})
     probe.close()
+    code = c.get("planted")
+    if code == "DUP":
+        got = [d["code"] for d in obs.get("diags", []) if d["code"] in ("P0019", "P0020")]
+        code = got[0] if got else code
+    for d in obs.get("diags", []):
+        if d["code"] == "P9999":
+            continue
+        for lab, primary in [(d["primary"], True)] + [(x, False) for x in d["secondary"]]:
+            v = check_label(lab, files, primary, d["code"], None, lab.get("msg"))
+            if v:
+                return False, str(v)[:400]
+    core.build_plc()
+    tmp = core.worker_tmpdir("c05replay")
+    try:
+        d_ = os.path.join(tmp, "u")
+        os.makedirs(d_, exist_ok=True)
+        for n, t in files:
+            open(os.path.join(d_, n), "w").write(t)
+        for _ in range(4):
+            r = core.run_cli(["check", d_], tmp)
+            v = cli_sections(r["err_raw"], obs.get("diags", []), files, code)
+            if v:
+                return False, str(v)[:400]
+    finally:
+        shutil.rmtree(tmp, ignore_errors=True)
     return True, str([(d["code"], d["primary"]) for d in obs.get("diags", [])])[:400]
